@@ -463,7 +463,9 @@ pub fn gen_world(rng: &mut Rng, o: &GenOpts) -> CliWorld {
     let f = if special {
       match rng.below(8) {
         0 | 1 | 2 => SrcFile { path, text: String::new(), hex: None, kind: "empty".into(), link_to: None },
-        3 | 4 => SrcFile { path, text: String::new(), hex: Some("6c657420fffe203d20313b0a".into()), kind: "non_utf8".into(), link_to: None },
+        3 => SrcFile { path, text: String::new(), hex: Some("6c657420fffe203d20313b0a".into()), kind: "non_utf8".into(), link_to: None },
+        // valid lines with findings first, the invalid bytes on the last line
+        4 => SrcFile { path, text: String::new(), hex: Some(format!("{}6c657420fffe203d20313b0a", "console.log(1);\nfoo(1, 2);\n".bytes().map(|b| format!("{b:02x}")).collect::<String>())), kind: "non_utf8".into(), link_to: None },
         5 => SrcFile { path, text: "let a = \u{0}1;\nconsole.log(a);\n".into(), hex: None, kind: "binary".into(), link_to: None },
         6 => {
           if rng.chance(0.5) {
